@@ -148,6 +148,22 @@ CLAIMS["C04"] = (
     "asked for exactly (the code's and the report's semantics).",
     "DESIGN.md §2 C04")
 
+CLAIMS["C14"] = (
+    "exception-aware CFG path rules: guard exactness, await-freedom of the critical section "
+    "(never-between), handler totality, who-may-call / who-may-write",
+    "Decides on every path of the parsed source of the request loop, the synchronous registration "
+    "function and the completion handler: distribute_power runs only via _process_request, which "
+    "always registers the task and its completion callback; the in-flight guard is exactly "
+    "membership in the registry and no await lies between receiving a request, the guard and the "
+    "bookkeeping (asyncio interleaves only at awaits); the pending slot is only overwritten with "
+    "the incoming request; the handler reaches the pending/clear decision on the normal and every "
+    "Exception path, pops and starts the pending request and clears the marker only when nothing "
+    "is pending; everything is keyed by the frozenset of component ids. Liveness beyond these "
+    "structural progress conditions (event-loop fairness) is not decided.",
+    "Trusted: cooperative scheduling of asyncio; done-callbacks run from the loop, not inside "
+    "_run's synchronous sections; statement-granular CFG.",
+    "DESIGN.md §2 C14")
+
 PENDING_REASON = ("no static check is registered for this property yet in this revision of the "
                   "machinery (planned rules are in DESIGN.md §2); nothing is claimed for it")
 
